@@ -154,6 +154,23 @@ let () =
       spec "c02_stack_plus_spent_is_starting_stack" (s.istack + s.ispent = stack_total) o.(0);
       spec "c02_stake_within_spent" (0 <= s.istake && s.istake <= s.ispent) o.(0)) ist.iseats;
     spec "c02_pot_is_sum_of_contributions" (ist.ipot = Stdlib.List.fold_left (fun a s -> a + s.ispent) 0 ist.iseats) o.(0);
+    (* ... and on every state the engine moves to from here (each accepted probe is a reachable state) *)
+    let chips st = Stdlib.List.fold_left (fun a s -> a + s.istack) 0 st.iseats + st.ipot in
+    Stdlib.List.iter (fun av ->
+      match String.index_opt av '>' with
+      | Some k ->
+        let v = String.sub av (k + 1) (String.length av - k - 1) in
+        if v <> "X" then begin
+          let nst = parse_state v in
+          let what = String.sub av 0 k ^ " leads to " ^ v in
+          Stdlib.List.iter (fun s ->
+            spec "c02_stack_nonnegative" (s.istack >= 0) what;
+            spec "c02_stack_plus_spent_is_starting_stack" (s.istack + s.ispent = stack_total) what;
+            spec "c02_stake_within_spent" (0 <= s.istake && s.istake <= s.ispent) what) nst.iseats;
+          spec "c02_pot_is_sum_of_contributions" (nst.ipot = Stdlib.List.fold_left (fun a s -> a + s.ispent) 0 nst.iseats) what;
+          spec "c02_step_conserves_chips" (chips nst = chips ist) what
+        end
+      | None -> ()) (split '~' o.(10));
     (* C14: hole cards and board pairwise disjoint; the deck offered is exactly the unseen cards *)
     let all = Stdlib.List.fold_left (fun a s -> BinNat.N.coq_lor a s.icards) ist.iboard ist.iseats in
     let cnt = Stdlib.List.fold_left (fun a s -> a + popcount s.icards) (popcount ist.iboard) ist.iseats in
